@@ -440,8 +440,101 @@ except UpblkCyclicError:
 '''
 
 
+REPLAY_METHOD = '''
+sys.path.insert(0, '/verif')
+import warnings; warnings.filterwarnings('ignore')
+from corpus import method_designs as MD
+import random
+top = MD.build(%(name)r, %(sched)r, %(picks)r)
+msg = MD.problems(%(name)r, MD.run_order(top))
+if msg: reproduced("method-ordering design " + %(name)r + " under " + %(sched)r + " (shuffle outcomes %(picks)r): " + msg)
+if %(picks)r is not None:      # the queue the shuffle sees follows set iteration over fresh objects: also let the library's own generator pick
+  for seed in range(400):
+    random.seed(seed)
+    msg = MD.problems(%(name)r, MD.run_order(MD.build(%(name)r, 'simple')))
+    if msg: reproduced("method-ordering design " + %(name)r + " under SimpleSchedulePass, random.seed(%%d): " %% seed + msg)
+'''
+
+
+def item_method(it):
+  """explicit METHOD ordering constraints: the blocks calling constrained methods (directly or through method nets, also
+  transitively through methods nobody calls) run in the constrained order in every tick -- under the three scheduling
+  passes, the default pass group, and EVERY pick sequence of SimpleSchedulePass's Kahn loop (shuffle stub, fork per pick).
+  Expected pairs: corpus/method_designs.NEED, written down by hand from the rule."""
+  cover.start()
+  import warnings; warnings.filterwarnings('ignore')
+  import random as _random
+  from corpus import method_designs as MD
+  name = it['name']
+  res = Result(f"method/{name}")
+  sp.setup()
+
+  def judge(orders, sched, picks):
+    res['obligations'] += 1
+    msg = MD.problems(name, orders)
+    if msg is None: res['discharged'] += 1
+    else: res['violations'].append(dict(key=f"method-order:{name}:{sched if picks is None else 'simple pick sequence'}", what=f"{res['name']} [{sched}]: {msg}",
+                                        replay=REPLAY_METHOD % dict(name=name, sched=sched, picks=picks)))
+  for sched in ('simple', 'dynamic', 'heutopo', 'default'):
+    try:
+      judge(MD.run_order(MD.build(name, sched)), sched, None)
+    except Exception as e:
+      res['obligations'] += 1
+      res['violations'].append(dict(key=f"method-order:{name}:{sched} raises", what=f"{res['name']} [{sched}]: a legal design is rejected: {type(e).__name__}: {str(e)[:200]}",
+                                    replay=REPLAY_METHOD % dict(name=name, sched=sched, picks=None)))
+  orig = _random.shuffle
+  cnt = [0]; picks = []
+
+  def stub(q):
+    if len(q) <= 1: return
+    ch, _v = fresh(f'pick{cnt[0]}', 4); cnt[0] += 1
+    core.assume(ch < len(q))
+    i = ch.__index__()                       # fork over every choice
+    picks.append(i)
+    q.append(q.pop(i))
+
+  from pymtl3.passes.sim.SimpleSchedulePass import SimpleSchedulePass
+  from pymtl3.passes.BasePass import PassMetadata
+  top = MD.build(name, 'simple')          # elaborated and scheduled once; only the Kahn loop is re-run per path (as in the dep items)
+
+  def run():
+    cnt[0] = 0; del picks[:]
+    saved = top._sched
+    top._sched = PassMetadata()
+    _random.shuffle = stub
+    try:
+      SimpleSchedulePass().schedule_intra_cycle(top)
+      sched = list(top._sched.update_schedule)
+    finally:
+      _random.shuffle = orig; top._sched = saved
+    orders = []
+    for _ in range(2):
+      del top.log[:]
+      for b in sched: b()
+      orders.append(list(top.log))
+    return orders, list(picks)
+  ex = Explorer(max_paths=6000)
+  seen = set()
+  for pc, out, exc in ex.paths(run):
+    if isinstance(exc, core.PathPruned): continue
+    res['states'] += 1
+    if exc is not None:
+      res['inconclusive'].append(f"scheduler raised under the shuffle stub: {type(exc).__name__}: {exc}"); break
+    orders, pk = out
+    t = tuple(orders[0])
+    if t in seen: continue
+    seen.add(t)
+    judge(orders, 'simple', pk)
+  res['transitions'] = res['states']
+  res['note'] = f"{len(MD.BLOCKS[name])} blocks, {len(MD.NEED[name])} ordered pairs, {len(seen)} distinct Kahn orders over {res['states']} pick sequences"
+  res['twins_expected'] = 1; res['twins_sat'] = 1
+  res['distinct'].append(res['name'])
+  res['samples'].append({'design': name, 'ordered_pairs': MD.NEED[name], 'kahn_orders': sorted(seen)[:4]})
+  return res.r
+
+
 def dispatch(it):
-  return {'dep': item_dep, 'overlap': item_overlap, 'cyclic': item_cyclic}[it['kind']](it)
+  return {'dep': item_dep, 'overlap': item_overlap, 'cyclic': item_cyclic, 'method': item_method}[it['kind']](it)
 
 
 def main():
@@ -456,15 +549,17 @@ def main():
   for n in ([8, 64, 1023] if tier == 'thorough' else [8, 64]): items.append(dict(kind='overlap', name=f'overlap{n}', n=n))
   small = ['stdlib:NormalQueueRTL1', 'x:NestedStruct', 'x:DescLoop', 'ff:Swap', 'ff:StructReg', 'ff:Forwarded', 'ff:ParentWritesChild', 'ff:CondMulti']
   for n in hand + small + shapes: items.append(dict(kind='dep', name=n))
+  from corpus import method_designs as _MD
+  for n in _MD.DESIGNS: items.append(dict(kind='method', name=n))
   for it, r in pmap(dispatch, items, item_timeout=900 if tier == 'quick' else 3600):
     chk.absorb(it, r)
-  chk.bounds = dict(designs=len(items) - 3, kahn_enumeration_up_to_blocks=6, per_bit_dependence_up_to_state_bits=260,
+  chk.bounds = dict(designs=len(items) - 3, method_ordering_designs=list(_MD.DESIGNS), kahn_enumeration_up_to_blocks=6, per_bit_dependence_up_to_state_bits=260,
                     slice_bounds='all 0 <= lo < hi <= n for n in {8, 64' + (', 1023' if tier == 'thorough' else '') + '}')
   chk.outside = ['WrapGreenletPass / OpenLoopCLPass orders (greenlet switching is not a function of a state the summaries see)',
-                 'method constraints (covered only through the CL queues of C17)', 'designs whose state is wider than 260 bits (C01 covers them through result equality)']
+                 'method constraints outside the nine method-ordering designs (non-blocking interfaces with rdy methods are exercised through the CL queues of C17)', 'designs whose state is wider than 260 bits (C01 covers them through result equality)']
   chk.assumptions = ['random.shuffle replaced by a nondeterministic stub (every pick explored by forking)', 'semantic dependence under-approximates the syntactic read/write sets']
   chk.finish(rule="per design: dependence queries (bit can change / bit can influence), then one obligation per executed order (5 pass groups + every distinct Kahn pick sequence): "
-                  "each block exactly once, every semantic writer before its reader, explicit constraints honoured; plus constraint generation for all slice bounds and rejection of value-less cycles")
+                  "each block exactly once, every semantic writer before its reader, explicit constraints honoured; method-ordering designs: the executed order of every tick against a hand-written table of ordered pairs under three scheduling passes, the default group and every Kahn pick sequence; plus constraint generation for all slice bounds and rejection of value-less cycles")
 
 
 if __name__ == '__main__':
